@@ -111,4 +111,18 @@ def messageCalls {M : Type} (ser : M → Option (List UInt8)) (sendLimit : Int) 
   | some p => senderCalls sendLimit [p]
   | none => []
 
+/-- The sender goroutine's write calls that are GUARANTEED to be made on the still open
+    connection once the reader goroutine has seen the end of the stream in state `s`, with `queue`
+    sitting in `rs.wr` (a lower bound).  When the failed read was the header read, the reader
+    cancels the sender and waits for it before closing the connection (`readErrAction`), so the
+    sender does what it does after any cancellation (`afterCancel`); when it was a body read the
+    connection is closed under the sender at once and nothing is guaranteed. -/
+def senderCallsAfterEOF {M : Type} (ser : M → Option (List UInt8)) (sendLimit : Int) (s : RState)
+    (oracle : List Bool) (queue : List M) : List WriteCall :=
+  match readErrAction s with
+  | some a =>
+    if a.cancelsSender then afterCancel Gen.senderDrainsOnDone (messageCalls ser sendLimit) oracle queue
+    else []
+  | none => []
+
 end Nexus.Frame
